@@ -11,6 +11,9 @@ import json, os, re, shutil, subprocess, sys, tempfile, time, glob
 
 VERIF = os.path.dirname(os.path.abspath(__file__))
 REPO = os.environ.get("VERIF_REPO", "/repo")
+# assertions about state that only the engine can observe: held locks and blocked goroutines (natively verifapi.HeldLocks()
+# is 0 and verifapi.Blocked() is true, so a native replay of such a violation passes by construction)
+ENGINE_ONLY_ASSERTIONS = {"no-lock-left-held", "lock-released", "all-background-activity-stopped"}
 GOSYM = os.path.join(VERIF, "bin", "gosym")
 HARNESS = os.path.join(VERIF, "harness")
 KNOWN = os.path.join(VERIF, "known_findings.json")
@@ -313,11 +316,14 @@ def main():
                     if cl == "pass":
                         cl = "schedule-not-forced"
                     rec["native_output_tail"] = outp[-1200:]
+                if cl == "pass" and v["assertion"] in ENGINE_ONLY_ASSERTIONS:
+                    # the assertion is about state only the engine observes (verifapi.HeldLocks / Blocked are constants natively)
+                    cl = "not-observable-natively"
                 rec["native_replay"] = cl
                 json.dump(rec, open(f, "w"), indent=1)
                 replayed.append((h["harness"], v["assertion"], cl, f))
                 confirmed = cl.startswith("assert:") or cl in ("panic", "hang")
-                if confirmed or cl in ("not-replayed", "schedule-not-forced"):
+                if confirmed or cl in ("not-replayed", "schedule-not-forced", "not-observable-natively"):
                     violations.append((h["harness"], v["assertion"], v.get("message", ""), f, cl))
                 else:
                     inconclusive.append("%s/%s: counterexample did not reproduce natively (%s) - encoder or stub suspect; cex kept at %s"
